@@ -32,69 +32,80 @@ mod opt_cols__mrt;
 mod opt_cols__runpar;
 mod same_gen__to;
 mod same_gen__strpar;
-mod two_inputs__topar;
-mod two_inputs__redecl;
-mod two_inputs__str;
-mod ternary__pari;
-mod bound_mix__ser;
-mod bound_mix__u64;
-mod join_chain__permpar;
-mod reach__par;
-mod self_join3__par;
-mod lag_right__perm2;
-mod lag_left__pari;
-mod lag_mid__ser;
-mod lag_mid__u64;
-mod multi_head_rec__par;
-mod sp_dual__pari;
-mod sp_dual__src2;
-mod sp_dual__ren;
-mod longest_capped__par;
-mod set_reach__topar;
-mod set_reach__redecl;
-mod bset__topar;
-mod opt_lat__pari;
-mod lat_two_keys__par;
-mod lat_val_bound__par;
-mod lat_input__mrt;
-mod lat_input__runpar;
-mod count_paths__mrt;
-mod count_paths__runpar;
-mod neg_basic__mrt;
-mod neg_basic__runpar;
-mod agg_minmaxsum__ser;
-mod agg_lattice__ser;
-mod neg_rec_after__ser;
-mod agg_empty__ser;
-mod agg_empty_rel__to;
-mod disj__par;
-mod disj__src1;
-mod disj__perm2;
-mod disj_nested__exp;
-mod rep_expr__par;
-mod multi_head_disj__exppar;
-mod mac_basic__pari;
-mod mac_basic__src2;
-mod mac_capture__ser;
-mod mac_nested__exp;
-mod mac_disj__par;
-mod rnd_core_02__par;
-mod rnd_core_05__ser;
-mod rnd_core_07__pari;
-mod rnd_core_10__par;
-mod rnd_core_13__ser;
-mod rnd_core_15__pari;
-mod rnd_core_18__par;
-mod rnd_core_21__ser;
-mod rnd_core_23__pari;
-mod rnd_core_26__par;
-mod rnd_core_29__ser;
-mod rnd_agg_01__pari;
-mod rnd_agg_04__par;
-mod rnd_agg_07__ser;
-mod rnd_agg_09__pari;
-mod rnd_agg_12__par;
-mod rnd_agg_15__ser;
+mod not_reorderable__ren;
+mod pre_join_rec__perm2;
+mod two_inputs__run;
+mod two_inputs__init;
+mod two_inputs__u64;
+mod ternary__perm1;
+mod bound_mix__par;
+mod bound_mix__strpar;
+mod join_chain__str;
+mod reach__pari;
+mod self_join3__pari;
+mod lag_right__ren;
+mod lag_left__to;
+mod lag_mid__par;
+mod lag_mid__strpar;
+mod multi_head_rec__pari;
+mod sp_dual__to;
+mod sp_dual__srcto;
+mod sp_dual__permpar;
+mod longest_capped__pari;
+mod set_reach__run;
+mod set_reach__init;
+mod cp__ser;
+mod lex_lat__ser;
+mod lat_two_keys__pari;
+mod lat_pre_join__pari;
+mod lat_val_bound__pari;
+mod lat_input__gen;
+mod lat_input__srcpar;
+mod count_paths__gen;
+mod count_paths__srcpar;
+mod neg_basic__gen;
+mod neg_basic__srcpar;
+mod agg_minmaxsum__par;
+mod agg_lattice__par;
+mod neg_rec_after__par;
+mod agg_empty__par;
+mod agg_empty_rel__topar;
+mod agg_pre_join__pari;
+mod disj__gen;
+mod disj__srcpar;
+mod disj_nested__par;
+mod pat_args__exppar;
+mod multi_head_disj__pari;
+mod mac_basic__ser;
+mod mac_basic__src0;
+mod mac_basic__exp;
+mod mac_nested__par;
+mod mac_gensym_disj__exppar;
+mod rnd_core_01__pari;
+mod rnd_core_04__par;
+mod rnd_core_07__ser;
+mod rnd_core_09__pari;
+mod rnd_core_12__par;
+mod rnd_core_15__ser;
+mod rnd_core_17__pari;
+mod rnd_core_20__par;
+mod rnd_core_23__ser;
+mod rnd_core_25__pari;
+mod rnd_core_28__par;
+mod rnd_agg_01__ser;
+mod rnd_agg_03__pari;
+mod rnd_agg_06__par;
+mod rnd_agg_09__ser;
+mod rnd_agg_11__pari;
+mod rnd_agg_14__par;
+mod rnd_prec_01__to;
+mod rnd_prec_03__par;
+mod rnd_prec_04__topar;
+mod rnd_prec_06__pari;
+mod rnd_prec_08__ser;
+mod rnd_prea_02__ser;
+mod rnd_prea_04__pari;
+mod rnd_prea_07__par;
 
 fn lookup(name: &str) -> fn() -> Box<dyn Driven> {
    match name {
@@ -122,69 +133,80 @@ fn lookup(name: &str) -> fn() -> Box<dyn Driven> {
       "opt_cols__runpar" => opt_cols__runpar::make,
       "same_gen__to" => same_gen__to::make,
       "same_gen__strpar" => same_gen__strpar::make,
-      "two_inputs__topar" => two_inputs__topar::make,
-      "two_inputs__redecl" => two_inputs__redecl::make,
-      "two_inputs__str" => two_inputs__str::make,
-      "ternary__pari" => ternary__pari::make,
-      "bound_mix__ser" => bound_mix__ser::make,
-      "bound_mix__u64" => bound_mix__u64::make,
-      "join_chain__permpar" => join_chain__permpar::make,
-      "reach__par" => reach__par::make,
-      "self_join3__par" => self_join3__par::make,
-      "lag_right__perm2" => lag_right__perm2::make,
-      "lag_left__pari" => lag_left__pari::make,
-      "lag_mid__ser" => lag_mid__ser::make,
-      "lag_mid__u64" => lag_mid__u64::make,
-      "multi_head_rec__par" => multi_head_rec__par::make,
-      "sp_dual__pari" => sp_dual__pari::make,
-      "sp_dual__src2" => sp_dual__src2::make,
-      "sp_dual__ren" => sp_dual__ren::make,
-      "longest_capped__par" => longest_capped__par::make,
-      "set_reach__topar" => set_reach__topar::make,
-      "set_reach__redecl" => set_reach__redecl::make,
-      "bset__topar" => bset__topar::make,
-      "opt_lat__pari" => opt_lat__pari::make,
-      "lat_two_keys__par" => lat_two_keys__par::make,
-      "lat_val_bound__par" => lat_val_bound__par::make,
-      "lat_input__mrt" => lat_input__mrt::make,
-      "lat_input__runpar" => lat_input__runpar::make,
-      "count_paths__mrt" => count_paths__mrt::make,
-      "count_paths__runpar" => count_paths__runpar::make,
-      "neg_basic__mrt" => neg_basic__mrt::make,
-      "neg_basic__runpar" => neg_basic__runpar::make,
-      "agg_minmaxsum__ser" => agg_minmaxsum__ser::make,
-      "agg_lattice__ser" => agg_lattice__ser::make,
-      "neg_rec_after__ser" => neg_rec_after__ser::make,
-      "agg_empty__ser" => agg_empty__ser::make,
-      "agg_empty_rel__to" => agg_empty_rel__to::make,
-      "disj__par" => disj__par::make,
-      "disj__src1" => disj__src1::make,
-      "disj__perm2" => disj__perm2::make,
-      "disj_nested__exp" => disj_nested__exp::make,
-      "rep_expr__par" => rep_expr__par::make,
-      "multi_head_disj__exppar" => multi_head_disj__exppar::make,
-      "mac_basic__pari" => mac_basic__pari::make,
-      "mac_basic__src2" => mac_basic__src2::make,
-      "mac_capture__ser" => mac_capture__ser::make,
-      "mac_nested__exp" => mac_nested__exp::make,
-      "mac_disj__par" => mac_disj__par::make,
-      "rnd_core_02__par" => rnd_core_02__par::make,
-      "rnd_core_05__ser" => rnd_core_05__ser::make,
-      "rnd_core_07__pari" => rnd_core_07__pari::make,
-      "rnd_core_10__par" => rnd_core_10__par::make,
-      "rnd_core_13__ser" => rnd_core_13__ser::make,
-      "rnd_core_15__pari" => rnd_core_15__pari::make,
-      "rnd_core_18__par" => rnd_core_18__par::make,
-      "rnd_core_21__ser" => rnd_core_21__ser::make,
-      "rnd_core_23__pari" => rnd_core_23__pari::make,
-      "rnd_core_26__par" => rnd_core_26__par::make,
-      "rnd_core_29__ser" => rnd_core_29__ser::make,
-      "rnd_agg_01__pari" => rnd_agg_01__pari::make,
-      "rnd_agg_04__par" => rnd_agg_04__par::make,
-      "rnd_agg_07__ser" => rnd_agg_07__ser::make,
-      "rnd_agg_09__pari" => rnd_agg_09__pari::make,
-      "rnd_agg_12__par" => rnd_agg_12__par::make,
-      "rnd_agg_15__ser" => rnd_agg_15__ser::make,
+      "not_reorderable__ren" => not_reorderable__ren::make,
+      "pre_join_rec__perm2" => pre_join_rec__perm2::make,
+      "two_inputs__run" => two_inputs__run::make,
+      "two_inputs__init" => two_inputs__init::make,
+      "two_inputs__u64" => two_inputs__u64::make,
+      "ternary__perm1" => ternary__perm1::make,
+      "bound_mix__par" => bound_mix__par::make,
+      "bound_mix__strpar" => bound_mix__strpar::make,
+      "join_chain__str" => join_chain__str::make,
+      "reach__pari" => reach__pari::make,
+      "self_join3__pari" => self_join3__pari::make,
+      "lag_right__ren" => lag_right__ren::make,
+      "lag_left__to" => lag_left__to::make,
+      "lag_mid__par" => lag_mid__par::make,
+      "lag_mid__strpar" => lag_mid__strpar::make,
+      "multi_head_rec__pari" => multi_head_rec__pari::make,
+      "sp_dual__to" => sp_dual__to::make,
+      "sp_dual__srcto" => sp_dual__srcto::make,
+      "sp_dual__permpar" => sp_dual__permpar::make,
+      "longest_capped__pari" => longest_capped__pari::make,
+      "set_reach__run" => set_reach__run::make,
+      "set_reach__init" => set_reach__init::make,
+      "cp__ser" => cp__ser::make,
+      "lex_lat__ser" => lex_lat__ser::make,
+      "lat_two_keys__pari" => lat_two_keys__pari::make,
+      "lat_pre_join__pari" => lat_pre_join__pari::make,
+      "lat_val_bound__pari" => lat_val_bound__pari::make,
+      "lat_input__gen" => lat_input__gen::make,
+      "lat_input__srcpar" => lat_input__srcpar::make,
+      "count_paths__gen" => count_paths__gen::make,
+      "count_paths__srcpar" => count_paths__srcpar::make,
+      "neg_basic__gen" => neg_basic__gen::make,
+      "neg_basic__srcpar" => neg_basic__srcpar::make,
+      "agg_minmaxsum__par" => agg_minmaxsum__par::make,
+      "agg_lattice__par" => agg_lattice__par::make,
+      "neg_rec_after__par" => neg_rec_after__par::make,
+      "agg_empty__par" => agg_empty__par::make,
+      "agg_empty_rel__topar" => agg_empty_rel__topar::make,
+      "agg_pre_join__pari" => agg_pre_join__pari::make,
+      "disj__gen" => disj__gen::make,
+      "disj__srcpar" => disj__srcpar::make,
+      "disj_nested__par" => disj_nested__par::make,
+      "pat_args__exppar" => pat_args__exppar::make,
+      "multi_head_disj__pari" => multi_head_disj__pari::make,
+      "mac_basic__ser" => mac_basic__ser::make,
+      "mac_basic__src0" => mac_basic__src0::make,
+      "mac_basic__exp" => mac_basic__exp::make,
+      "mac_nested__par" => mac_nested__par::make,
+      "mac_gensym_disj__exppar" => mac_gensym_disj__exppar::make,
+      "rnd_core_01__pari" => rnd_core_01__pari::make,
+      "rnd_core_04__par" => rnd_core_04__par::make,
+      "rnd_core_07__ser" => rnd_core_07__ser::make,
+      "rnd_core_09__pari" => rnd_core_09__pari::make,
+      "rnd_core_12__par" => rnd_core_12__par::make,
+      "rnd_core_15__ser" => rnd_core_15__ser::make,
+      "rnd_core_17__pari" => rnd_core_17__pari::make,
+      "rnd_core_20__par" => rnd_core_20__par::make,
+      "rnd_core_23__ser" => rnd_core_23__ser::make,
+      "rnd_core_25__pari" => rnd_core_25__pari::make,
+      "rnd_core_28__par" => rnd_core_28__par::make,
+      "rnd_agg_01__ser" => rnd_agg_01__ser::make,
+      "rnd_agg_03__pari" => rnd_agg_03__pari::make,
+      "rnd_agg_06__par" => rnd_agg_06__par::make,
+      "rnd_agg_09__ser" => rnd_agg_09__ser::make,
+      "rnd_agg_11__pari" => rnd_agg_11__pari::make,
+      "rnd_agg_14__par" => rnd_agg_14__par::make,
+      "rnd_prec_01__to" => rnd_prec_01__to::make,
+      "rnd_prec_03__par" => rnd_prec_03__par::make,
+      "rnd_prec_04__topar" => rnd_prec_04__topar::make,
+      "rnd_prec_06__pari" => rnd_prec_06__pari::make,
+      "rnd_prec_08__ser" => rnd_prec_08__ser::make,
+      "rnd_prea_02__ser" => rnd_prea_02__ser::make,
+      "rnd_prea_04__pari" => rnd_prea_04__pari::make,
+      "rnd_prea_07__par" => rnd_prea_07__par::make,
       _ => panic!("no such program variant in this shard: {}", name),
    }
 }
